@@ -233,6 +233,97 @@ h_file(int nlines, int code)
     WITNESS();
 }
 
+
+/* ---- C09 (d): an %included file's lines appear at the point of inclusion.
+ * main file: nmain lines (kinds as in h_file) with "%include inc" before line `pos`; included file: ninc lines. */
+extern int verif_fcloses2;
+
+static int
+put_line(unsigned char *dst, int n, const char *text)
+{
+    int i;
+
+    for (i = 0; text[i]; i++) {
+        dst[n++] = (unsigned char) text[i];
+    }
+    return n;
+}
+
+static void
+h_include(int nmain, int mcode, int pos, int ninc, int icode)
+{
+    int flat[8], nflat = 0, mk[4], ik[4], k, n = 0, n2 = 0, depth = 0, stack[10], want_n = 0, j;
+    int want_ctx[LOG_MAX], want_kind[LOG_MAX];
+    const char *magic = "<verif-0.8.1>\n";
+    spif_charptr_t r;
+
+    setup_contexts();
+    for (k = 0; k < nmain; k++, mcode /= 6) {
+        mk[k] = mcode % 6;
+    }
+    for (k = 0; k < ninc; k++, icode /= 6) {
+        ik[k] = icode % 6;
+    }
+    n = put_line(verif_payload, 0, magic);
+    for (k = 0; k <= nmain; k++) {
+        if (k == pos) {
+            n = put_line(verif_payload, n, "%include inc\n");
+            for (j = 0; j < ninc; j++) {
+                flat[nflat++] = ik[j];
+            }
+        }
+        if (k < nmain) {
+            n = put_line(verif_payload, n, fline[mk[k]]);
+            flat[nflat++] = mk[k];
+        }
+    }
+    n2 = put_line(verif_payload2, 0, magic);
+    for (k = 0; k < ninc; k++) {
+        n2 = put_line(verif_payload2, n2, fline[ik[k]]);
+    }
+    /* the ideal reading of the flattened line sequence */
+    stack[0] = 0;
+    for (k = 0; k < nflat; k++) {
+        int kind = flat[k];
+
+        if (kind == 1 || kind == 2 || kind == 5) {
+            int id = (kind == 5) ? 0 : kind;
+
+            stack[++depth] = id;
+            if (id) {
+                want_ctx[want_n] = id; want_kind[want_n++] = 1;
+            }
+        } else if (kind == 3) {
+            if (depth > 0) {
+                if (stack[depth]) {
+                    want_ctx[want_n] = stack[depth]; want_kind[want_n++] = 2;
+                }
+                depth--;
+            }
+        } else if (kind == 4) {
+            if (stack[depth]) {
+                want_ctx[want_n] = stack[depth]; want_kind[want_n++] = 3;
+            }
+        }
+    }
+    verif_payload_len = n;  verif_payload_pos = 0;
+    verif_payload2_len = n2; verif_payload2_pos = 0;
+    verif_eof_flag = 0;
+    verif_io_active = 1;
+    verif_fopens = verif_fcloses = verif_fcloses2 = 0;
+    r = spifconf_parse(SPIF_CHARPTR("f"), (spif_charptr_t) NULL, (spif_charptr_t) NULL);
+    verif_io_active = 0;
+    CHECK("parse returns", r != NULL);
+    CHECK("every handler call of the ideal reading of main and included lines, and no other", nlog == want_n);
+    for (j = 0; j < want_n && j < nlog && j < LOG_MAX; j++) {
+        CHECK("an included file's lines are delivered at the point of inclusion, in order, to the innermost open context", vlog[j].ctx == want_ctx[j] && vlog[j].kind == want_kind[j]);
+    }
+    CHECK("both files were opened, each closed exactly once", verif_fopens == 2 && verif_fcloses == 2 && verif_fcloses2 == 1);
+    CHECK("the file stack is back where it started", fstate_idx == 0);
+    CHECK("the context stack is at the depth the flattened input leaves open", ctx_state_idx == depth);
+    WITNESS();
+}
+
 /* ---- C11: table growth steps from an arbitrary valid (index, capacity) pair.
  * which: 0 context-state stack, 1 file-state stack, 2 context table, 3 builtin table */
 static void
